@@ -21,7 +21,152 @@ ASSUMPTIONS = cl.ASSUMPTIONS + [
     "each step of a history is the real CLI handler (pv2puml -im/-om) in its "
     "own forked process; only files in the output directory survive",
     "the one-shot reference run uses the same hash class and uuid stream base",
+    "otel2puml histories: every trace lies wholly inside one chunk, "
+    "time_buffer 0, no unique-graph filtering (both would legitimately change "
+    "which traces a run learns from); the newest model file of every workflow "
+    "is passed with -im to every later run",
 ]
+
+
+# ---- second world: histories of otel2puml -om / -im runs over OTel data with
+# several workflows (job names) per run (sim/world_cli.py, kind "c04o") ------
+N_C04O = 1500
+SIZES_O = {"quick": 96, "thorough": N_C04O}
+N_C04O_SPECIAL = 600     # world_cli.SPECIAL_BASE + i: special workflow names
+SIZES_O_SPECIAL = {"quick": 24, "thorough": N_C04O_SPECIAL}
+
+
+def c04o_unit(i: int) -> dict:
+    return {"kind": "c04o", "idx": i, "hash_class": i % 16,
+            "uuid_seed": core.grid("c04o-uuid", i) % 2**32,
+            "n_chunks": 2 + core.grid("c04o-n", i) % 2,
+            "chunk_seed": core.grid("c04o-chunk", i) % 2**32,
+            "biased": core.grid("c04o-bias", i) % 3 == 0,
+            "same_out": core.grid("c04o-out", i) % 2 == 0,
+            "same_db": core.grid("c04o-db", i) % 3 == 0,
+            "wall": 1500}
+
+
+def classes_o(r: dict) -> list[str]:
+    return sorted({e[0] for e in r.get("errs", []) if e[0] != "harness"})
+
+
+def minimise_o(pool, unit, rec, cls, budget=40):
+    from . import checks_cli, world_cli
+
+    ds = unit.get("dataset") or world_cli.gen_dataset("C04o", unit["idx"])
+    best_u = dict(unit, dataset=copy.deepcopy(ds), assign=rec["assign"])
+    best_r = rec
+    spent = 0
+
+    def fails(u):
+        nonlocal spent
+        spent += 1
+        rr = pool.map([u])[0]
+        return cls in classes_o(rr), rr
+
+    for flag in ("same_db", "same_out"):
+        if best_u.get(flag) and spent < budget:
+            ok, rr = fails(dict(best_u, **{flag: False}))
+            if ok:
+                best_u, best_r = dict(best_u, **{flag: False}), rr
+    if best_u["n_chunks"] == 3 and spent < budget:
+        u = dict(best_u, n_chunks=2, assign={
+            t: min(c, 1) for t, c in best_u["assign"].items()})
+        ok, rr = fails(u)
+        if ok:
+            best_u, best_r = u, rr
+    progress = True
+    while progress and spent < budget:
+        progress = False
+        for cand in checks_cli.ds_candidates(best_u["dataset"]):
+            if spent >= budget:
+                break
+            cand = checks_cli._prune(cand)
+            live = {best_u["assign"][t] for t in cand["traces"]}
+            if not cand["files"] or len(live) < best_u["n_chunks"]:
+                continue
+            u = dict(best_u, dataset=cand)
+            ok, rr = fails(u)
+            if ok:
+                best_u, best_r = u, rr
+                progress = True
+                break
+    return best_u, best_r
+
+
+def phase_otel2puml(run: CheckRun) -> dict:
+    """C04 on the otel2puml route.  Returns the coverage record."""
+    n = scaled(SIZES_O[run.tier], run.scale)
+    r0 = random.Random(core.derive(run.seed, PROP, "c04o"))
+    idxs = sorted(r0.sample(range(N_C04O), min(n, N_C04O)))
+    from . import world_cli
+
+    ns = scaled(SIZES_O_SPECIAL[run.tier], run.scale)
+    idxs += [world_cli.SPECIAL_BASE + i for i in sorted(
+        r0.sample(range(N_C04O_SPECIAL), min(ns, N_C04O_SPECIAL)))]
+    units = [c04o_unit(i) for i in idxs]
+    cov = {"histories": len(units), "statuses": {}, "undecided": 0,
+           "processes": 0, "nontrivial": 0, "samples": [],
+           "faults_fired": {"process_restart_between_chunks": 0,
+                            "model_loaded_without_new_data_for_its_job": 0,
+                            "several_models_loaded_in_one_run": 0,
+                            "shared_output_directory": 0,
+                            "store_file_shared_across_runs": 0,
+                            "listing_order_permuted": 0}}
+    with core.Pool("world_cli", run.nproc) as pool:
+        results = pool.map(units)
+        new_v: dict = {}
+        for u, r in zip(units, results):
+            st = r.get("status", "?")
+            cov["statuses"][st] = cov["statuses"].get(st, 0) + 1
+            if st != "ok" or any(e[0] == "harness"
+                                 for e in r.get("errs", [])):
+                run.harness_error(f"C04o:{u['idx']}: {st} "
+                                  f"{[e for e in r.get('errs', [])][:2]} "
+                                  f"{str(r.get('detail'))[:200]}")
+                continue
+            cov["undecided"] += r.get("undecided", 0)
+            cov["processes"] += len(r.get("processes", []))
+            ff = cov["faults_fired"]
+            ff["process_restart_between_chunks"] += max(
+                0, len(r.get("step_status", [])) - 1)
+            ff["model_loaded_without_new_data_for_its_job"] += r.get(
+                "models_loaded_without_new_data", 0)
+            ff["several_models_loaded_in_one_run"] += (
+                len(r.get("pumls", [])) > 1)
+            ff["shared_output_directory"] += bool(r.get("same_out"))
+            ff["store_file_shared_across_runs"] += bool(r.get("same_db"))
+            ff["listing_order_permuted"] += (r.get("fs_permuted", 0) or 0) > 0
+            if r.get("gates", 0) >= 1 and len(r.get("workflows", [])) >= 2:
+                cov["nontrivial"] += 1
+                if len(cov["samples"]) < 2:
+                    cov["samples"].append({
+                        "dataset": r["id"], "workflows": r["workflows"],
+                        "traces": r["n_traces"], "chunk_of_trace": r["assign"],
+                        "history": r["processes"],
+                        "same_output_directory": r["same_out"],
+                        "same_store_file": r["same_db"],
+                        "log_digest": r.get("log_digest")})
+            for cls in classes_o(r):
+                key = {"dataset": f"C04o:{u['idx']}", "violation_class": cls}
+                if core.match_known(PROP, key, run.findings):
+                    run.violation(key, "")
+                else:
+                    new_v.setdefault((u["idx"], cls), (u, r))
+        for k, ((i, cls), (u, r)) in enumerate(sorted(new_v.items())):
+            mu, mr = (minimise_o(pool, u, r, cls) if k < 3 else
+                      (dict(u, assign=r["assign"]), r))
+            run.violation(
+                {"dataset": f"C04o:{i}", "violation_class": cls},
+                f"otel2puml history on data set C04o:{i}: {cls}: "
+                f"{next((e[1] for e in mr['errs'] if e[0] == cls), '')}"[:300],
+                {"kind": "c04o", "violation_class": cls, "unit": mu,
+                 "digest": mr.get("log_digest"),
+                 "history": mr.get("processes"),
+                 "hash_seed": core.hash_seed_of_class(u["hash_class"]),
+                 "detail": mr.get("errs")})
+    return cov
 
 
 def c04_unit(wid: str, sid: int, cuts=None, bias=False, use_folder=False,
@@ -37,6 +182,10 @@ def c04_unit(wid: str, sid: int, cuts=None, bias=False, use_folder=False,
     # half of the grid points reuse one output directory for all chunks
     u["same_out"] = (core.grid("c04-sameout", wid, sid) % 2 == 0
                      if same_out is None else same_out)
+    # the job name (-jn) is part of the schedule: the model file is named
+    # after it (' ' -> '_') and records it
+    u["job_name"] = ["x", "Example Sequence", "job [1]", "a b c"][
+        core.grid("c04-jobname", wid, sid) % 4]
     u["wall"] = 1500
     return u
 
@@ -236,18 +385,22 @@ def main(argv=None):
             run.violation(
                 {"workload": w, "violation_class": cls},
                 f"{w} schedule {u['sched']} cuts {mr.get('cuts')}: {cls}", pay)
+    cov_o = phase_otel2puml(run)
     cov = {
-        "evaluations": len(units),
-        "distinct_nontrivial": len(distinct),
+        "evaluations": len(units) + cov_o["histories"],
+        "distinct_nontrivial": len(distinct) + cov_o["nontrivial"],
         "rule": "one evaluation = one history (one-shot reference process + "
                 "2-3 chunk processes with a restart and a model file between "
                 "them); distinct = (workload, schedule, cut positions, bias); "
-                "non-trivial = definition has a fork or loop and >=2 jobs",
+                "non-trivial = definition has a fork or loop and >=2 jobs "
+                "(otel2puml histories: >=1 gate learnt and >=2 workflows)",
+        "otel2puml_histories": cov_o,
         "samples": samples,
         "statuses": stats,
         "simulated_time_ns": sim_ns,
         "simulated_processes": sum(
-            1 + len(r.get("step_status", [])) for r in results),
+            1 + len(r.get("step_status", [])) for r in results)
+        + cov_o["processes"],
         "faults_fired": {
             "process_restart_between_chunks": sum(
                 max(0, len(r.get("step_status", [])) - 1) for r in results),
@@ -343,6 +496,16 @@ def n_jobs_of_ast(ast, cap=60):
 
 def replay(run: CheckRun):
     pay = json.load(open(run.replay))
+    if pay.get("kind") == "c04o":
+        with core.Pool("world_cli", 1) as pool:
+            r = pool.map([pay["unit"]])[0]
+        cls = classes_o(r)
+        print(f"# replay classes={cls} digest_equal="
+              f"{r.get('log_digest') == pay.get('digest')}")
+        if pay["violation_class"] in cls:
+            print(f"VIOLATION property={PROP} replay={run.replay}")
+            raise SystemExit(1)
+        raise SystemExit(0)
     with core.Pool(WORLD, 1) as pool:
         r = pool.map([pay["unit"]])[0]
     cls = violation_classes(r)
